@@ -1,12 +1,639 @@
-//! C03 — not built yet.
-use crate::runner::{Outcome, Summary};
-use crate::Ctx;
-use serde_json::Value;
+//! C03 — serialized expressions denote the same value when parsed back.
+//!
+//! This file also holds the code shared by the expression group (C03, C12, C13):
+//!   * `build` / `to_abs`: the abstraction function between `quil_rs::expression::Expression` and the
+//!     JSON encoding of spec/ExprAbs.tla (DESIGN.md Appendix B).  Trees are built through the public
+//!     constructors of `quil_rs::expression` (`interned::*`), never by parsing;
+//!   * `gf_of`: the image of a literal in GF(1009) (exact rationals only), used for recorded real
+//!     outputs that TLC judges;
+//!   * sampled assignments, the floating-point comparison and the signed-zero / branch-cut filter of
+//!     DESIGN.md §2.2.
+//!
+//! replay: TLC cases {tree, text, parsed} of spec/mc/MC_ExprSyntax.tla are built, printed with
+//!         `to_quil`, re-parsed with `Expression::from_str` and both trees evaluated at 4 assignments.
+//! drive:  seeded random trees up to depth 6 over the full leaf alphabet; events reset/print/parse/done
+//!         go to spec/trace/ExprSyntaxTrace.tla, which re-prints and re-parses the tree with the model
+//!         and judges the recorded re-parsed tree by its value in GF(1009).
 
-pub fn replay(_ctx: &Ctx, _case: &Value) -> Outcome {
-    panic!("C03: replay not implemented")
+use crate::runner::{Outcome, Summary, Violation};
+use crate::util::{self, s};
+use crate::Ctx;
+use num_complex::Complex64;
+use quil_rs::expression::{
+    interned, Expression, ExpressionFunction, FunctionCallExpression, InfixExpression, InfixOperator,
+    PrefixExpression, PrefixOperator,
+};
+use quil_rs::instruction::MemoryReference;
+use quil_rs::quil::Quil;
+use rand::seq::SliceRandom;
+use rand::Rng;
+use serde_json::{json, Value};
+use std::collections::{BTreeSet, HashMap};
+use std::str::FromStr;
+
+// ------------------------------------------------------------------------------------ abstraction
+
+pub const P: i64 = 1009;
+/// a square root of -1 in GF(1009) (spec/ExprAbs.tla: `ImagUnit`)
+pub const IMAG_UNIT: i64 = 469;
+
+pub fn fmt_f64(x: f64) -> String {
+    if x.is_nan() {
+        "nan".into()
+    } else if x.is_infinite() {
+        if x > 0.0 { "inf".into() } else { "-inf".into() }
+    } else if x == 0.0 {
+        "0".into() // the sign of zero is not part of the encoding
+    } else {
+        format!("{x}")
+    }
 }
 
-pub fn drive(_ctx: &Ctx) -> Summary {
-    panic!("C03: drive not implemented")
+fn parse_f64(t: &str) -> f64 {
+    match t {
+        "nan" => f64::NAN,
+        "inf" => f64::INFINITY,
+        "-inf" => f64::NEG_INFINITY,
+        other => other.parse::<f64>().unwrap_or_else(|_| panic!("bad decimal in case: {other:?}")),
+    }
+}
+
+fn infix_op(t: &str) -> InfixOperator {
+    match t {
+        "+" => InfixOperator::Plus,
+        "-" => InfixOperator::Minus,
+        "*" => InfixOperator::Star,
+        "/" => InfixOperator::Slash,
+        "^" => InfixOperator::Caret,
+        o => panic!("unknown infix operator {o}"),
+    }
+}
+
+fn infix_name(o: InfixOperator) -> &'static str {
+    match o {
+        InfixOperator::Plus => "+",
+        InfixOperator::Minus => "-",
+        InfixOperator::Star => "*",
+        InfixOperator::Slash => "/",
+        InfixOperator::Caret => "^",
+    }
+}
+
+fn function(t: &str) -> ExpressionFunction {
+    match t {
+        "cis" => ExpressionFunction::Cis,
+        "cos" => ExpressionFunction::Cosine,
+        "exp" => ExpressionFunction::Exponent,
+        "sin" => ExpressionFunction::Sine,
+        "sqrt" => ExpressionFunction::SquareRoot,
+        o => panic!("unknown function {o}"),
+    }
+}
+
+fn function_name(f: ExpressionFunction) -> &'static str {
+    match f {
+        ExpressionFunction::Cis => "cis",
+        ExpressionFunction::Cosine => "cos",
+        ExpressionFunction::Exponent => "exp",
+        ExpressionFunction::Sine => "sin",
+        ExpressionFunction::SquareRoot => "sqrt",
+    }
+}
+
+fn inv_mod(a: i64) -> i64 {
+    let (mut r, mut b, mut e) = (1i64, a.rem_euclid(P), P - 2);
+    while e > 0 {
+        if e & 1 == 1 {
+            r = r * b % P;
+        }
+        b = b * b % P;
+        e >>= 1;
+    }
+    r
+}
+
+/// p/q with small p and q such that p/q == x exactly in f64, if any (large magnitudes are not recognised:
+/// there the grid of such rationals is finer than the floating-point spacing and anything would match).
+fn rational(x: f64) -> Option<(i64, i64)> {
+    if !x.is_finite() {
+        return None;
+    }
+    for q in 1..=720i64 {
+        let p = (x * q as f64).round();
+        if p.abs() <= 1e6 && p / q as f64 == x {
+            return Some((p as i64, q));
+        }
+    }
+    None
+}
+
+fn gf_real(x: f64) -> Option<i64> {
+    // 1e-7 and 1e20 of the C03 alphabet are exact powers of ten, not small rationals
+    if x == 1e-7 {
+        return Some(inv_mod(10i64.pow(7) % P));
+    }
+    if x == 1e20 {
+        return Some(((10i64.pow(10) % P) * (10i64.pow(10) % P)) % P);
+    }
+    let (p, q) = rational(x)?;
+    if q % P == 0 {
+        return None;
+    }
+    Some(p.rem_euclid(P) * inv_mod(q) % P)
+}
+
+/// The image of a literal in GF(1009): `Some(1009)` is the NaN marker of the specification, `None`
+/// means "not an exactly representable rational" (then TLC does not judge the value).
+pub fn gf_of(c: Complex64) -> Option<i64> {
+    if c.re.is_nan() || c.im.is_nan() {
+        return Some(P);
+    }
+    Some((gf_real(c.re)? + IMAG_UNIT * gf_real(c.im)?) % P)
+}
+
+/// C12 alphabet: GF leaf -> literal (spec/mc/MC_ExprSimplify.tla `Leaves`)
+pub fn literal_of_gf(n: i64) -> Complex64 {
+    match n {
+        0 => Complex64::new(0.0, 0.0),
+        1 => Complex64::new(1.0, 0.0),
+        2 => Complex64::new(2.0, 0.0),
+        3 => Complex64::new(3.0, 0.0),
+        1008 => Complex64::new(-1.0, 0.0),
+        505 => Complex64::new(0.5, 0.0),
+        506 => Complex64::new(1.5, 0.0),
+        1007 => Complex64::new(-2.0, 0.0),
+        4 => Complex64::new(4.0, 0.0),
+        938 => Complex64::new(0.0, 2.0), // 2 * ImagUnit
+        other => panic!("GF leaf {other} is not in the literal table of the harness"),
+    }
+}
+
+/// JSON -> Expression, through the public constructors (`quil_rs::expression::interned`); the
+/// interned pointer type is never named (`.into()`), the harness has no direct dependency on `internment`.
+pub fn build(v: &Value) -> Expression {
+    build_rec(v)
+}
+
+fn build_rec(v: &Value) -> Expression {
+    let t = s(v, "t");
+    match t.as_str() {
+        "num" => {
+            let c = if let Some(n) = v.get("n").and_then(|n| n.as_i64()) {
+                literal_of_gf(n)
+            } else {
+                Complex64::new(parse_f64(&s(v, "re")), parse_f64(&s(v, "im")))
+            };
+            (*interned::number(c)).clone()
+        }
+        "pi" => (*interned::pi()).clone(),
+        "var" => (*interned::variable(s(v, "v"))).clone(),
+        "addr" => {
+            let m = &v["m"];
+            (*interned::address(MemoryReference::new(s(m, "name"), util::u(m, "index")))).clone()
+        }
+        "neg" => (*interned::neg(build_rec(&v["e"]).into())).clone(),
+        "pos" => (*interned::unary_plus(build_rec(&v["e"]).into())).clone(),
+        "fn" => (*interned::function_call(function(&s(v, "f")), build_rec(&v["e"]).into())).clone(),
+        "inf" => {
+            (*interned::infix(build_rec(&v["l"]).into(), infix_op(&s(v, "op")), build_rec(&v["r"]).into())).clone()
+        }
+        o => panic!("unknown expression tag {o}"),
+    }
+}
+
+/// Expression -> JSON.  Numbers carry `re`/`im` (decimal strings) and, when `with_gf`, the field `n`
+/// (image in GF(1009)) or `"n": -1` when the literal is not an exact small rational.
+pub fn to_abs_opts(e: &Expression, with_gf: bool) -> Value {
+    match e {
+        Expression::Number(c) => {
+            if with_gf {
+                json!({"t": "num", "n": gf_of(*c).unwrap_or(-1)})
+            } else {
+                json!({"t": "num", "re": fmt_f64(c.re), "im": fmt_f64(c.im)})
+            }
+        }
+        Expression::PiConstant() => json!({"t": "pi"}),
+        Expression::Variable(v) => json!({"t": "var", "v": v}),
+        Expression::Address(m) => json!({"t": "addr", "m": {"name": m.name, "index": m.index}}),
+        Expression::Prefix(PrefixExpression { operator, expression }) => match operator {
+            PrefixOperator::Minus => json!({"t": "neg", "e": to_abs_opts(expression, with_gf)}),
+            PrefixOperator::Plus => json!({"t": "pos", "e": to_abs_opts(expression, with_gf)}),
+        },
+        Expression::FunctionCall(FunctionCallExpression { function, expression }) => {
+            json!({"t": "fn", "f": function_name(*function), "e": to_abs_opts(expression, with_gf)})
+        }
+        Expression::Infix(InfixExpression { left, operator, right }) => json!({
+            "t": "inf", "op": infix_name(*operator), "l": to_abs_opts(left, with_gf), "r": to_abs_opts(right, with_gf)}),
+    }
+}
+
+pub fn to_abs(e: &Expression) -> Value {
+    to_abs_opts(e, false)
+}
+
+/// every literal is an exact small rational (so `to_abs_opts(e, true)` has no `-1`)
+pub fn gf_exact(e: &Expression) -> bool {
+    match e {
+        Expression::Number(c) => gf_of(*c).is_some(),
+        Expression::Prefix(p) => gf_exact(&p.expression),
+        Expression::FunctionCall(f) => gf_exact(&f.expression),
+        Expression::Infix(i) => gf_exact(&i.left) && gf_exact(&i.right),
+        _ => true,
+    }
+}
+
+pub fn has_node(e: &Expression, pred: &dyn Fn(&Expression) -> bool) -> bool {
+    if pred(e) {
+        return true;
+    }
+    match e {
+        Expression::Prefix(p) => has_node(&p.expression, pred),
+        Expression::FunctionCall(f) => has_node(&f.expression, pred),
+        Expression::Infix(i) => has_node(&i.left, pred) || has_node(&i.right, pred),
+        _ => false,
+    }
+}
+
+pub fn variables(e: &Expression, out: &mut BTreeSet<String>) {
+    match e {
+        Expression::Variable(v) => {
+            out.insert(v.clone());
+        }
+        Expression::Prefix(p) => variables(&p.expression, out),
+        Expression::FunctionCall(f) => variables(&f.expression, out),
+        Expression::Infix(i) => {
+            variables(&i.left, out);
+            variables(&i.right, out);
+        }
+        _ => {}
+    }
+}
+
+/// addresses by an independent recursive walk (left to right), *not* through `memory_references`
+pub fn addresses(e: &Expression, out: &mut Vec<(String, u64)>) {
+    match e {
+        Expression::Address(m) => out.push((m.name.clone(), m.index)),
+        Expression::Prefix(p) => addresses(&p.expression, out),
+        Expression::FunctionCall(f) => addresses(&f.expression, out),
+        Expression::Infix(i) => {
+            addresses(&i.left, out);
+            addresses(&i.right, out);
+        }
+        _ => {}
+    }
+}
+
+pub fn depth(e: &Expression) -> usize {
+    match e {
+        Expression::Prefix(p) => 1 + depth(&p.expression),
+        Expression::FunctionCall(f) => 1 + depth(&f.expression),
+        Expression::Infix(i) => 1 + depth(&i.left).max(depth(&i.right)),
+        _ => 0,
+    }
+}
+
+// ------------------------------------------------------------------------- sampled evaluation
+
+pub struct Point {
+    pub vars: HashMap<String, Complex64>,
+    pub mem: HashMap<String, Vec<f64>>,
+}
+
+/// `n` seeded generic assignments plus one fixed one, for the names occurring in `e` (and `extra`).
+pub fn points(seed: u64, stream: u64, exprs: &[&Expression], n: usize) -> Vec<Point> {
+    let mut vs = BTreeSet::new();
+    let mut ads = vec![];
+    for e in exprs {
+        variables(e, &mut vs);
+        addresses(e, &mut ads);
+    }
+    let mut r = util::rng(seed, stream);
+    let mut out = vec![];
+    for k in 0..=n {
+        let mut vars = HashMap::new();
+        let mut mem: HashMap<String, Vec<f64>> = HashMap::new();
+        for (j, v) in vs.iter().enumerate() {
+            let c = if k == n {
+                // the fixed assignment
+                Complex64::new(1.25 + 0.5 * j as f64, 0.75 - 0.375 * j as f64)
+            } else {
+                let m: f64 = r.gen_range(0.6..2.5);
+                let a: f64 = r.gen_range(0.2..1.3) * if r.gen_bool(0.5) { 1.0 } else { -1.0 };
+                Complex64::from_polar(m, a)
+            };
+            vars.insert(v.clone(), c);
+        }
+        for (name, idx) in &ads {
+            let cell = mem.entry(name.clone()).or_default();
+            while cell.len() <= *idx as usize {
+                let j = cell.len();
+                let x = if k == n {
+                    0.625 + 0.25 * j as f64
+                } else {
+                    r.gen_range(0.6..2.5) * if r.gen_bool(0.3) { -1.0 } else { 1.0 }
+                };
+                cell.push(x);
+            }
+        }
+        out.push(Point { vars, mem });
+    }
+    out
+}
+
+pub fn eval(e: &Expression, p: &Point) -> Option<Complex64> {
+    e.evaluate(&p.vars, &p.mem).ok()
+}
+
+fn near_cut(c: Complex64) -> bool {
+    // on (or within rounding of) the negative real axis, or within rounding of the origin: `ln` jumps
+    // there.  An *exact* zero is not sensitive: 0^y is 0, 1 (y = 0) or not finite whatever the signs of
+    // the zeros, and sqrt(0) = 0 - so 0^0 and (x-x)^y stay judged.
+    if c.re == 0.0 && c.im == 0.0 {
+        return false;
+    }
+    let n = c.norm();
+    !n.is_finite() || n < 1e-9 || (c.re < 0.0 && c.im.abs() <= 1e-6 * c.re.abs())
+}
+
+/// max |value| over all sub-expressions, whether a `^` base / `sqrt` argument sits on the cut, and whether
+/// some sub-expression has a value inside the simplifier's absolute tolerances (`is_zero`: |v| < 1e-10,
+/// `is_one`: |v - 1| < 1e-10) without being exactly 0 or 1
+fn scan(e: &Expression, p: &Point, scale: &mut f64, cut: &mut bool, tol: &mut bool) {
+    if let Some(v) = eval(e, p) {
+        if v.norm().is_finite() {
+            *scale = scale.max(v.norm());
+        }
+        let (z, o) = (v.norm(), (v - 1.0).norm());
+        *tol |= (z > 0.0 && z < 1e-8) || (o > 0.0 && o < 1e-8);
+    }
+    match e {
+        Expression::Prefix(x) => scan(&x.expression, p, scale, cut, tol),
+        Expression::FunctionCall(f) => {
+            if f.function == ExpressionFunction::SquareRoot {
+                if let Some(v) = eval(&f.expression, p) {
+                    *cut |= near_cut(v);
+                }
+            }
+            scan(&f.expression, p, scale, cut, tol)
+        }
+        Expression::Infix(i) => {
+            if i.operator == InfixOperator::Caret {
+                if let Some(v) = eval(&i.left, p) {
+                    *cut |= near_cut(v);
+                }
+            }
+            scan(&i.left, p, scale, cut, tol);
+            scan(&i.right, p, scale, cut, tol);
+        }
+        _ => {}
+    }
+}
+
+/// the tree with the sign of every zero imaginary part of its literals flipped (DESIGN.md §2.2)
+fn flip_zero_im(e: &Expression) -> Expression {
+    match e {
+        Expression::Number(c) if c.im == 0.0 => (*interned::number(Complex64::new(c.re, -c.im))).clone(),
+        Expression::Prefix(p) => match p.operator {
+            PrefixOperator::Minus => (*interned::neg(flip_zero_im(&p.expression).into())).clone(),
+            PrefixOperator::Plus => (*interned::unary_plus(flip_zero_im(&p.expression).into())).clone(),
+        },
+        Expression::FunctionCall(f) => {
+            (*interned::function_call(f.function, flip_zero_im(&f.expression).into())).clone()
+        }
+        Expression::Infix(i) => {
+            (*interned::infix(flip_zero_im(&i.left).into(), i.operator, flip_zero_im(&i.right).into())).clone()
+        }
+        other => other.clone(),
+    }
+}
+
+pub fn close(a: Complex64, b: Complex64, scale: f64) -> bool {
+    if a == b {
+        return true;
+    }
+    let d = (a - b).norm();
+    d <= 1e-9 * a.norm().max(b.norm()) || d <= 1e-9 * scale
+}
+
+pub enum Judged {
+    /// the original is not finite here, or the point is branch-cut sensitive: the statement excludes it
+    NotJudged(&'static str),
+    Same,
+    Differs { original: Complex64, other: Option<Complex64> },
+}
+
+/// Compare `other` with `original` at `p` under the rules of DESIGN.md §2.2.
+pub fn judge(original: &Expression, other: &Expression, p: &Point) -> Judged {
+    judge_opts(original, other, p, false)
+}
+
+/// `tolerances`: also exclude points where a sub-expression of the original falls inside the simplifier's
+/// absolute tolerances (DESIGN.md §6 C12: "the tolerance behaviour itself is not judged")
+pub fn judge_opts(original: &Expression, other: &Expression, p: &Point, tolerances: bool) -> Judged {
+    let Some(a) = eval(original, p) else { return Judged::NotJudged("incomplete") };
+    if !a.re.is_finite() || !a.im.is_finite() {
+        return Judged::NotJudged("original not finite");
+    }
+    let mut scale = 0.0;
+    let mut cut = false;
+    let mut tol = false;
+    scan(original, p, &mut scale, &mut cut, &mut tol);
+    if cut {
+        return Judged::NotJudged("branch cut");
+    }
+    if tolerances && tol {
+        return Judged::NotJudged("inside simplifier tolerance");
+    }
+    match eval(&flip_zero_im(original), p) {
+        Some(f) if close(a, f, scale) => {}
+        _ => return Judged::NotJudged("signed zero"),
+    }
+    match eval(other, p) {
+        Some(b) if close(a, b, scale) => Judged::Same,
+        b => Judged::Differs { original: a, other: b },
+    }
+}
+
+pub fn cplx_json(c: Option<Complex64>) -> Value {
+    match c {
+        Some(c) => json!([fmt_f64(c.re), fmt_f64(c.im)]),
+        None => json!("error"),
+    }
+}
+
+pub fn point_json(p: &Point) -> Value {
+    let mut vars: Vec<(String, Value)> = p.vars.iter().map(|(k, v)| (k.clone(), cplx_json(Some(*v)))).collect();
+    vars.sort_by(|a, b| a.0.cmp(&b.0));
+    let mut mem: Vec<(String, Value)> = p.mem.iter().map(|(k, v)| (k.clone(), json!(v))).collect();
+    mem.sort_by(|a, b| a.0.cmp(&b.0));
+    json!({"vars": vars, "mem": mem})
+}
+
+// ------------------------------------------------------------------------------------------ C03
+
+/// The property on one tree: prints, re-parses, same value at the sampled assignments.
+/// Returns the printed text and the re-parsed tree when both steps succeeded.
+fn round_trip(ctx: &Ctx, e: &Expression, o: &mut Outcome) -> (Option<String>, Option<Expression>) {
+    let text = match e.to_quil() {
+        Ok(t) => t,
+        Err(err) => {
+            o.violate(Violation::new("to_quil", json!("Ok(text)"), json!(format!("{err:?}"))));
+            return (None, None);
+        }
+    };
+    let parsed = match Expression::from_str(&text) {
+        Ok(p) => p,
+        Err(err) => {
+            o.violate(
+                Violation::new("from_str(to_quil(e))", json!("Ok(expression)"), json!(format!("{err}")))
+                    .note(format!("printed text: {text}")),
+            );
+            return (Some(text), None);
+        }
+    };
+    let pts = points(ctx.seed, 3, &[e], 3);
+    for p in &pts {
+        o.sub_evaluations += 1;
+        match judge(e, &parsed, p) {
+            Judged::Same => o.count("points_judged"),
+            Judged::NotJudged(why) => o.count(&format!("not_judged_{}", why.replace(' ', "_"))),
+            Judged::Differs { original, other } => {
+                o.violate(
+                    Violation::new("evaluate(from_str(to_quil(e)))", cplx_json(Some(original)), cplx_json(other))
+                        .note(format!("printed text: {text}; assignment {}", point_json(p))),
+                );
+                break;
+            }
+        }
+    }
+    (Some(text), Some(parsed))
+}
+
+fn nontrivial(e: &Expression) -> bool {
+    matches!(e, Expression::Infix(_) | Expression::Prefix(_))
+        || has_node(e, &|x| matches!(x, Expression::Infix(_) | Expression::Prefix(_)))
+}
+
+pub fn replay(ctx: &Ctx, case: &Value) -> Outcome {
+    let tree = if let Some(h) = case.get("history") { h[0]["tree"].clone() } else { case["tree"].clone() };
+    let e = build(&tree);
+    let mut o = Outcome::ok(nontrivial(&e));
+    // the abstraction function must be the identity on the alphabet
+    if to_abs(&e) != tree {
+        panic!("abstraction mismatch: {} vs {}", to_abs(&e), tree);
+    }
+    let (text, parsed) = round_trip(ctx, &e, &mut o);
+    if !o.violations.is_empty() {
+        return o;
+    }
+    // model's opinion: informational only
+    if let (Some(want), Some(text)) = (case.get("text").and_then(|t| t.as_str()), &text) {
+        if want != text {
+            o.diverge(format!("printed text {text:?} differs from the model's {want:?}"));
+        }
+    }
+    if let (Some(want), Some(parsed)) = (case.get("parsed"), &parsed) {
+        match want.get("some") {
+            Some(w) if *w != to_abs(parsed) => {
+                o.diverge(format!("re-parsed tree {} differs from the model's {}", to_abs(parsed), w))
+            }
+            None => o.diverge("the model does not parse its own text, the real parser does".to_string()),
+            _ => {}
+        }
+        // ExprSyntax!ReparseExact on the real code (not part of the statement)
+        let again = parsed.to_quil().ok().and_then(|t| Expression::from_str(&t).ok());
+        if again.as_ref() != Some(parsed) {
+            o.diverge(format!("second round trip is not exact for {}", to_abs(parsed)));
+        }
+    }
+    o
+}
+
+// ------------------------------------------------------------------------------------ C03 drive
+
+/// the full leaf alphabet of DESIGN.md §6 C03 (all in the `Lit` table of spec/ExprAbs.tla)
+pub const LITERALS: &[(f64, f64)] = &[
+    (0.0, 0.0), (1.0, 0.0), (2.0, 0.0), (3.0, 0.0), (-1.0, 0.0), (0.5, 0.0), (-0.5, 0.0), (1.5, 0.0), (1e-7, 0.0),
+    (1e20, 0.0), (0.0, 1.0), (0.0, 2.0), (0.0, -2.0), (1.0, 2.0), (1.0, -2.0), (-1.0, 2.0), (-1.5, -0.5), (0.0, 0.5),
+];
+pub const FUNCTIONS: &[&str] = &["cis", "cos", "exp", "sin", "sqrt"];
+pub const OPS: &[&str] = &["+", "-", "*", "/", "^"];
+
+pub struct Alphabet<'a> {
+    pub literals: &'a [(f64, f64)],
+    pub vars: &'a [&'a str],
+    pub addrs: &'a [(&'a str, u64)],
+    pub ops: &'a [&'a str],
+    pub fns: &'a [&'a str],
+    pub pi: bool,
+    pub pos: bool,
+}
+
+pub fn random_tree(r: &mut impl Rng, a: &Alphabet, depth: usize) -> Value {
+    let leaf = depth == 0 || r.gen_bool(0.22);
+    if leaf {
+        let k = r.gen_range(0..100);
+        if k < 35 || (a.vars.is_empty() && a.addrs.is_empty()) {
+            let (re, im) = *a.literals.choose(r).unwrap();
+            return json!({"t": "num", "re": fmt_f64(re), "im": fmt_f64(im)});
+        } else if k < 45 && a.pi {
+            return json!({"t": "pi"});
+        } else if k < 75 && !a.vars.is_empty() {
+            return json!({"t": "var", "v": a.vars.choose(r).unwrap()});
+        } else if !a.addrs.is_empty() {
+            let (n, i) = a.addrs.choose(r).unwrap();
+            return json!({"t": "addr", "m": {"name": n, "index": i}});
+        } else {
+            return json!({"t": "var", "v": a.vars.choose(r).unwrap()});
+        }
+    }
+    let k = r.gen_range(0..100);
+    if k < 60 {
+        json!({"t": "inf", "op": a.ops.choose(r).unwrap(), "l": random_tree(r, a, depth - 1), "r": random_tree(r, a, depth - 1)})
+    } else if k < 80 {
+        json!({"t": "neg", "e": random_tree(r, a, depth - 1)})
+    } else if k < 85 && a.pos {
+        json!({"t": "pos", "e": random_tree(r, a, depth - 1)})
+    } else if !a.fns.is_empty() {
+        json!({"t": "fn", "f": a.fns.choose(r).unwrap(), "e": random_tree(r, a, depth - 1)})
+    } else {
+        json!({"t": "neg", "e": random_tree(r, a, depth - 1)})
+    }
+}
+
+pub fn drive(ctx: &Ctx) -> Summary {
+    let n = ctx.arg_u64("n", 100);
+    let max_depth = ctx.arg_u64("depth", 6) as usize;
+    let path = ctx.arg_str("out").expect("--out");
+    let mut out = std::io::BufWriter::new(std::fs::File::create(path).expect("create trace"));
+    let mut rng = util::rng(ctx.seed, 303);
+    let alphabet = Alphabet {
+        literals: LITERALS,
+        vars: &["x", "y", "theta"],
+        addrs: &[("m", 0), ("m", 1), ("n", 1), ("ro", 2)],
+        ops: OPS,
+        fns: FUNCTIONS,
+        pi: true,
+        pos: true,
+    };
+    let mut sum = Summary::default();
+    let mut seen = std::collections::HashSet::new();
+    for h in 0..n {
+        let d = 1 + (h as usize % max_depth);
+        let tree = random_tree(&mut rng, &alphabet, d);
+        let e = build(&tree);
+        let mut o = Outcome::ok(nontrivial(&e));
+        util::emit(&mut out, &json!({"ev": "reset", "tree": tree}));
+        let (text, parsed) = round_trip(ctx, &e, &mut o);
+        util::emit(&mut out, &json!({"ev": "print", "text": util::opt_json(text.clone())}));
+        util::emit(&mut out, &json!({"ev": "parse", "parsed": match &parsed {
+            Some(p) => json!({"some": to_abs(p)}),
+            None => json!({"none": true}),
+        }}));
+        util::emit(&mut out, &json!({"ev": "done"}));
+        o.count_n("events", 4);
+        let distinct = seen.insert(tree.to_string());
+        sum.absorb(&json!({"tree": tree}), &o, distinct);
+    }
+    sum
 }
